@@ -39,14 +39,15 @@ def erodeSub (dt : DT) (a b : Int) : Int :=
   let r := dt.wrap (a - b)
   if dt.signed && decide (r > a) then dt.lo else r
 
-/-- `dilate_add` of `_morph.cpp` (overflow test as repaired: for a height `b ≥ 0`
-    the wrapped sum overflowed iff it is smaller than `a`). -/
+/-- `dilate_add` of `_morph.cpp` (overflow test as repaired, `b >= 0 && r < a`: for a height `b ≥ 0`
+    the wrapped sum overflowed iff it is smaller than `a`; for a negative height the stored sum is returned
+    as it is). Tied to the C++ text for ALL `a`, `b` by `cscalar_dilate_add_eq_model`. -/
 def dilateAdd (dt : DT) (a b : Int) : Int :=
   if dt.isBool then (if a ≠ 0 ∧ b ≠ 0 then 1 else 0) else
   if a = dt.lo then a else
   if b = dt.lo then b else
   let r := dt.wrap (a + b)
-  if r < a then dt.hi else r
+  if b ≥ 0 ∧ r < a then dt.hi else r
 
 /-- `subm` of `_morph.cpp`, one element. -/
 def submElem (dt : DT) (a b : Int) : Int :=
